@@ -424,6 +424,19 @@ def witnesses():
         add("lib_celsius_pt_in_kelvins", "(void)au::celsius_pt(R{20}).in(au::kelvins);", "reject")
         add("lib_celsius_pt_as_kelvins", "(void)au::celsius_pt(R{20}).as(au::kelvins);", "reject")
         add("lib_celsius_qty_in_kelvins_pt", "(void)au::celsius_qty(R{20}).in(au::kelvins_pt);", "reject")
+    # C++20: <=> on points is the comparison of absolute positions, like < == > (not the sign of a
+    # difference, which need not be representable): unsigned reps, boundary values, sub-int reps,
+    # infinities, mixed units and reps
+    ss = ("#include <climits>\n#include <limits>\n"
+          "static_assert((au::kelvins_pt(3u) <=> au::kelvins_pt(5u)) < 0 && (au::kelvins_pt(5u) <=> au::kelvins_pt(3u)) > 0 && (au::kelvins_pt(5u) <=> au::kelvins_pt(5u)) == 0, \"unsigned, same type\");\n"
+          "static_assert((au::celsius_pt(0u) <=> au::kelvins_pt(300u)) < 0 && (au::kelvins_pt(300u) <=> au::celsius_pt(0u)) > 0, \"unsigned, different origins\");\n"
+          "static_assert((au::kelvins_pt(std::uint64_t{3}) <=> au::milli(au::kelvins_pt)(5000u)) < 0, \"unsigned, mixed reps and units\");\n"
+          "static_assert((au::kelvins_pt(INT_MIN) <=> au::kelvins_pt(INT_MAX)) < 0 && (au::kelvins_pt(INT_MAX) <=> au::kelvins_pt(-1)) > 0, \"boundary values\");\n"
+          "static_assert((au::celsius_pt(std::int8_t{100}) <=> au::celsius_pt(std::int8_t{-100})) > 0 && (au::celsius_pt(std::int8_t{-100}) <=> au::celsius_pt(std::int8_t{100})) < 0, \"sub-int rep\");\n"
+          "static_assert((au::celsius_pt(20) <=> au::kelvins_pt(300)) < 0 && (au::celsius_pt(100) <=> au::fahrenheit_pt(212)) == 0 && (au::celsius_pt(20.5) <=> au::kelvins_pt(293)) > 0, \"ordinary values\");\n"
+          "static_assert((au::celsius_pt(std::numeric_limits<double>::infinity()) <=> au::kelvins_pt(std::numeric_limits<double>::infinity())) == 0, \"equal infinities are equivalent\");\n"
+          "static_assert(std::is_same<decltype(au::kelvins_pt(1) <=> au::kelvins_pt(2)), std::strong_ordering>::value && std::is_same<decltype(au::kelvins_pt(1.0) <=> au::celsius_pt(2)), std::partial_ordering>::value, \"category of the common rep\");")
+    items.append(witness.Item("w:spaceship", ss, "accept", {"c++20"}, dict(desc="C++20 <=> on points orders by absolute position (unsigned, boundary, sub-int, infinite, mixed operands)")))
     return items
 
 
